@@ -119,6 +119,17 @@ def gen (n : Nat) : G (List String) := do
       | _ => pure ()
     -- accepted but inapplicable mapping files through the pipes wired with main.go's panic wrappers
     out := out ++ (← genInsane i)
+    -- IPv6 routing headers at the edges of their one-byte length field (a header of 8 + 8·L bytes, L up to 255), chained
+    -- (next header 43 again), in captures shorter and longer than the header
+    for _ in [0:3] do
+      let l ← pick [31, 63, 127, 255, 30, 32, 0, 1]
+      let typ ← pick [4, 0, 2, 4]
+      let rh : Bytes := [43, UInt8.ofNat l, UInt8.ofNat typ, UInt8.ofNat (← below 4), UInt8.ofNat (← below 3), 0, 0, 0]
+      let tail ← bytesOf (← pick [0, 8, 40, 248, 256, 300])
+      let fr : Bytes := (← bytesOf 12) ++ [0x86, 0xdd, 0x60, 0, 0, 0, 0, 8, 43, 64] ++ (← bytesOf 32) ++ rh ++ tail
+      out := out ++ ["call parsepacket c0 " ++ hexOf fr]
+      let dg : Spec.Sflow.Datagram := ⟨[10, 0, 0, 9], 1, 2, 3, [.flow 1 0 5 [100, 1, 0, 3, 4] [.rawHeader 1 1000 0 fr]]⟩
+      out := out ++ [pktLine "sf" e 1 (Spec.Sflow.encode dg)]
     -- ParsePacket on truncated / mutated frames
     for _ in [0:4] do
       let f ← Frame.genFrame
